@@ -213,7 +213,7 @@ def minimise(mod, case, viol):
 
     def fails(c):
         tests[0] += 1
-        if tests[0] > 4000:
+        if tests[0] > getattr(mod, 'SHRINK_BUDGET', 4000):
             return False
         try:
             o = mod.run_case(c)
@@ -256,6 +256,12 @@ def replay(mod, path, root):
     case = mod.case_from_json(doc['case']) if hasattr(mod, 'case_from_json') else doc['case']
     out = mod.run_case(case)
     exp = doc['violation']
+    if out.violation is None and exp['class'].startswith('known-family-not-listed:'):
+        kid = exp['class'].split(':', 1)[1]
+        if kid in out.known:
+            print('replayed: the case still exhibits the finding family %s' % kid)
+            print('VIOLATION property=%s replay=%s' % (mod.PROPERTY, path))
+            return 1
     if out.violation is None:
         print('replay: the tree no longer exhibits %s (expected class %s)' % (path, exp['class']))
         return 0
